@@ -54,7 +54,7 @@ claimed = {
  "C13": dict(text="Concurrent half: the real BoundedCachedCompressors code runs per thread in recording mode (channel operations become events with symbolic results); for every capacity, initial "
              "fill, object kind and 2-3 threads one solver query over 8-bit timestamps and executed-flags decides whether any schedule reaches a state in which a thread is blocked forever in "
              "Acquire*/Release*. Sequential half: a ledger provider wrapped around the real providers proves on every path of the C07 harness and of two consecutive ReadEntity calls that each "
-             "acquired object is released exactly once and not used afterwards.", design="5 (C13), 2.8", tech="; schedules are solver variables in the event-order encoding (stuck state over all interleavings of the bounded thread set)"),
+             "acquired object is released exactly once and not used afterwards. Value level under concurrency: 2-3 threads using each provider through the ledger, and two encoded responses in flight, are run interleaved on one state (switch points at provider calls and lock acquisitions, preemption-bounded): no object is handed out while in use, the ledger ends clean, each response decodes to its own payload.", design="5 (C13), 2.8, 2.8b", tech="; schedules are solver variables in the event-order encoding (stuck state over all interleavings of the bounded thread set) and forked alternatives in the bounded interleaving exploration"),
  "C06": dict(text="Enumerated filter counts per level and entry modes; each generated filter's behaviour (pass on / stop, replace the request-response pair, set an attribute, http middleware) "
              "is a symbolic bit; the solver proves on every path that the log of filter and handler invocations equals the reference sequence and that the pair and attributes passed on are "
              "the ones received, also after an earlier request on the same container (to the same route or to a sibling with the same method and path and its own route filter); routing failures are produced by the built-in routers and by a custom RouteSelector that reports a plain error.", design="5 (C06)"),
